@@ -51,9 +51,19 @@ type T struct {
 
 type varNames map[engine.Variable]int
 
+// nodeBudget bounds the size of a term read back (cyclic terms created by
+// unification without occurs check would otherwise unfold for ever).
+var nodeBudget int
+
+const maxNodes = 4000
+
 func fromTerm(t engine.Term, env *engine.Env, names varNames, depth int) *T {
-	if depth > 2000 {
-		return &T{K: 'o', S: "<deep>"}
+	if depth == 0 {
+		nodeBudget = maxNodes
+	}
+	nodeBudget--
+	if depth > 500 || nodeBudget < 0 {
+		return &T{K: 'o', S: "<huge>"}
 	}
 	switch x := env.Resolve(t).(type) {
 	case engine.Variable:
@@ -78,6 +88,19 @@ func fromTerm(t engine.Term, env *engine.Env, names varNames, depth int) *T {
 	default:
 		return &T{K: 'o', S: fmt.Sprintf("%T", x)}
 	}
+}
+
+// huge reports whether the term was cut off by the node budget.
+func (t *T) huge() bool {
+	if t.K == 'o' && t.S == "<huge>" {
+		return true
+	}
+	for _, a := range t.Args {
+		if a.huge() {
+			return true
+		}
+	}
+	return false
 }
 
 func (t *T) String() string {
@@ -366,4 +389,36 @@ func replayFile(path string) int {
 		fmt.Println("  now: no answers")
 	}
 	return 0
+}
+
+// ---- deterministic step budget ---------------------------------------------------------------
+
+// stepCtx is a context whose Done channel is closed from the n-th poll on. The
+// engine polls ctx.Done() once per trampoline iteration, so this bounds the
+// work of a run independently of wall-clock time and machine load.
+type stepCtx struct {
+	context.Context
+	polls, limit int
+	closed       chan struct{}
+}
+
+func newStepCtx(parent context.Context, limit int) *stepCtx {
+	c := &stepCtx{Context: parent, limit: limit, closed: make(chan struct{})}
+	close(c.closed)
+	return c
+}
+
+func (c *stepCtx) Done() <-chan struct{} {
+	c.polls++
+	if c.polls > c.limit {
+		return c.closed
+	}
+	return c.Context.Done()
+}
+
+func (c *stepCtx) Err() error {
+	if c.polls > c.limit {
+		return context.Canceled
+	}
+	return c.Context.Err()
 }
